@@ -56,6 +56,10 @@ def _build(name, cfg, dicts, dict_id):
     return o
 
 
+def _registry_name(name):
+    return name
+
+
 def run_ops(ops):
     """execute a behaviour; returns list (per op) of None or dict field -> list of floats per point"""
     reg = registry.registry()
